@@ -30,10 +30,10 @@ Every run returns the outcome and the event trace; events are what the generated
 namespace Model.Exc
 open Model.Hier (Name Cls Graph getClass isThrown isClassValue R throwableName exceptionName errorName)
 
-/-- what travels in a `*data.ThrowValue`: an object (`Object != nil`; its class declaration and the `new` site that
-made it), or no object at all -/
+/-- what travels in a `*data.ThrowValue`: an object (`Object != nil`; the name of its class — the VM's class table is
+keyed by name — and the `new` site that made it), or no object at all -/
 inductive Thrown where
-  | obj (c : Cls) (site : Nat)
+  | obj (cls : Name) (site : Nat)
   | internal
 deriving DecidableEq, Repr
 
@@ -88,12 +88,18 @@ def Cfg.pinned : Cfg := ⟨false, false⟩
 
 /-- `Class{ty}.Is(cv)` -/
 def classIs (G : Graph) (ty : Name) : Thrown → Bool
-  | .obj c _ => isClassValue G ty c == .yes
+  | .obj n _ =>
+    match getClass G n with
+    | some c => isClassValue G ty c == .yes
+    | none => false
   | .internal => ty == throwableName || ty == exceptionName || ty == errorName
 
 /-- `catchTypeMatches(Class{ty}, cv)`: `Is`, then the `Throwable` fallback -/
 def singleMatches (G : Graph) (ty : Name) : Thrown → Bool
-  | .obj c _ => isThrown G ty c == .yes
+  | .obj n _ =>
+    match getClass G n with
+    | some c => isThrown G ty c == .yes
+    | none => false
   | .internal => ty == throwableName || ty == exceptionName || ty == errorName
 
 /-- `catchTypeMatches(exceptionType, cv)`; the parser builds a `Class` for one name, a `UnionType` for several -/
@@ -104,8 +110,8 @@ def clauseMatches (G : Graph) (tys : List Name) (t : Thrown) : Bool :=
 
 /-! ### non-recursive phases (each takes the recursive calls as parameters) -/
 
-/-- the `guard` of the repaired `TryStatement`: a Go panic becomes a class-less script exception -/
-def guard : Res → Res
+/-- `TryStatement.guard` of the repaired code: a Go panic becomes a class-less script exception -/
+def protect : Res → Res
   | (.panic, tr) => (.thr .internal, tr)
   | r => r
 
@@ -130,9 +136,9 @@ def catchPhase (handle : Res → Res) : Res → Res
 /-- repaired `TryStatement.GetValue` -/
 def tryStmt (i : Nat) (hasFin : Bool) (runBody : List Ev → Res) (catchLoop : Thrown → List Ev → Res)
     (runFin : List Ev → Res) (tr : List Ev) : Res :=
-  let r1 := guard (runBody (tr ++ [.enterTry i]))
-  let r2 := catchPhase (fun r => guard (tryValue catchLoop r)) r1
-  finallyPhase i hasFin (fun t => guard (runFin t)) r2
+  let r1 := protect (runBody (tr ++ [.enterTry i]))
+  let r2 := catchPhase (fun r => protect (tryValue catchLoop r)) r1
+  finallyPhase i hasFin (fun t => protect (runFin t)) r2
 
 /-- the deferred branch of the pinned code: `v, c = t.tryValue(ctx, NewErrorThrow(panic))`, and return -/
 def recovered (catchLoop : Thrown → List Ev → Res) (tr : List Ev) : Res := catchLoop .internal tr
@@ -180,7 +186,7 @@ def rethrown (cfg : Cfg) : Option Thrown → Thrown
 /-- `throw new K("s<site>")`; an undeclared class never gets this far (origami refuses the program when loading it) -/
 def thrownNew (G : Graph) (cls : Name) (site : Nat) : Thrown :=
   match getClass G cls with
-  | some c => .obj c site
+  | some _ => .obj cls site
   | none => .internal
 
 /-! ### the evaluator -/
